@@ -74,7 +74,10 @@ impl Soundness {
                     ["=", "+=", "-=", "*=", "/=", "%=", "<<=", ">>=", "&=", "|=", "^=", "**="].iter().any(|op| sig.contains(&format!(":Bin:{op}:")))
                 };
                 let cellish = |sig: &str| sig == "C01:cell-content" || sig.ends_with(":cell") || assignment(sig);
-                run.log.violations.iter().find(|v| cellish(&v.sig)).map(|v| {
+                // (an array label that does not admit a cell among its elements lets a later narrowing hand the
+                // cell out at the wrong cell type)
+                let cell_label = |v: &exec::TypeViolation| v.sig.ends_with(":label") && v.msg.contains("mut ");
+                run.log.violations.iter().find(|v| cellish(&v.sig) || cell_label(v)).map(|v| {
                     fail(format!("C13:cell-typing:{}", v.sig.trim_start_matches("C01:")), format!("{what}: {}", v.msg))
                 })
             }
